@@ -5,8 +5,8 @@ package main
 import (
 	"encoding/json"
 	"flag"
-	"math/rand"
 	"fmt"
+	"math/rand"
 	"os"
 	"strconv"
 	"strings"
@@ -45,11 +45,49 @@ func main() {
 		if err := d(os.Args[3:]); err != nil {
 			die(2, "driver %s: %v", os.Args[2], err)
 		}
+	case "tours":
+		fs := flag.NewFlagSet("tours", flag.ExitOnError)
+		graph := fs.String("graph", "", "TLC dot dump (-dump dot,actionlabels)")
+		sim := fs.String("sim", "", "glob of TLC -simulate files")
+		out := fs.String("out", "beh", "output prefix (<prefix>.<shard>.beh)")
+		shards := fs.Int("shards", 1, "number of behaviour files")
+		seed := fs.Int64("seed", 1, "seed")
+		maxlen := fs.Int("maxlen", 40, "max steps per behaviour (graph tours)")
+		limit := fs.Int("limit", 0, "max behaviours (0 = all; a seeded sample otherwise)")
+		fs.Parse(os.Args[2:])
+		var behs []engine.Behaviour
+		var nodes, edges int
+		if *graph != "" {
+			g, err := tla.LoadDot(*graph)
+			if err != nil {
+				die(2, "load graph: %v", err)
+			}
+			nodes, edges = len(g.IDs), len(g.Edges)
+			behs = engine.Tours(g, *seed, *maxlen)
+		} else {
+			var err error
+			behs, err = engine.SimBehaviours(*sim)
+			if err != nil {
+				die(2, "load sim: %v", err)
+			}
+		}
+		total := len(behs)
+		if *limit > 0 && len(behs) > *limit {
+			rng := rand.New(rand.NewSource(*seed))
+			rng.Shuffle(len(behs), func(i, j int) { behs[i], behs[j] = behs[j], behs[i] })
+			behs = behs[:*limit]
+		}
+		if _, err := engine.WriteBehaviours(*out, behs, *shards); err != nil {
+			die(2, "write behaviours: %v", err)
+		}
+		b, _ := json.Marshal(map[string]int{"graph_nodes": nodes, "graph_edges": edges, "behaviours_total": total, "behaviours_selected": len(behs)})
+		fmt.Println(string(b))
 	case "replay":
 		fs := flag.NewFlagSet("replay", flag.ExitOnError)
 		adapter := fs.String("adapter", "", "adapter name")
 		graph := fs.String("graph", "", "TLC dot dump (-dump dot,actionlabels)")
 		sim := fs.String("sim", "", "glob of TLC -simulate files")
+		behFile := fs.String("beh", "", "behaviour file written by vh tours")
 		out := fs.String("out", "trace.ndjson", "trace output")
 		summary := fs.String("summary", "", "summary json output")
 		shard := fs.String("shard", "0/1", "i/n")
@@ -59,7 +97,23 @@ func main() {
 		fs.Parse(os.Args[2:])
 		var behs []engine.Behaviour
 		var nodes, edges int
-		if *graph != "" {
+		if *behFile != "" {
+			bs, index, err := engine.ReadBehaviours(*behFile)
+			if err != nil {
+				die(2, "read behaviours: %v", err)
+			}
+			sum, err := engine.RunIndexed(*adapter, bs, index, 0, 1, *out)
+			if err != nil {
+				die(2, "replay: %v", err)
+			}
+			b, _ := json.MarshalIndent(sum, "", " ")
+			if *summary != "" {
+				os.WriteFile(*summary, b, 0644)
+			} else {
+				fmt.Println(string(b))
+			}
+			return
+		} else if *graph != "" {
 			g, err := tla.LoadDot(*graph)
 			if err != nil {
 				die(2, "load graph: %v", err)
